@@ -93,7 +93,7 @@ impl Cfg {
             if !c.add_dynamic_type("fmt") {
                 return Err("add_dynamic_type(fmt) rejected".into());
             }
-            if !c.add_dynamic_type_item("fmt", 1, "{value} qq", vec!["{NUMBER:value} {TEXT:type:qq}"], "{value}", "{value}", vec!["qq".to_string()], Some(d), Some(rounding), Some(remove)) {
+            if !c.add_dynamic_type_item("fmt", 1, "{value} qq", vec!["{NUMBER:value} {TEXT:type:qq}", "{TEXT:type:qq} {NUMBER:value}"], "{value}", "{value}", vec!["qq".to_string()], Some(d), Some(rounding), Some(remove)) {
                 return Err("add_dynamic_type_item(fmt, 1) rejected".into());
             }
         }
